@@ -39,7 +39,7 @@ CHECKS = {
  "C07": ("exploration",
          "bounded-exhaustive enumeration of construct nests, differential against an independent AST-level hand expansion",
          "DESIGN.md §4 C07",
-         "Every nest of depth <= 2 (quick) / 3 (thorough, capped as stated in the evidence) over 80 construct variants (.loop, .if/else with 7 conditions - among them constants defined only at the end of the file - and 5 branch shapes incl. unselected branches that define the names the program uses, macros, a second macro invoked next to the nest whose body defines names called like the outer ones, .const, scopes, 8 import forms incl. names imported through two levels) x 15 leaf bodies (incl. references to the enclosing block's start/end and a body with an error that exists in one intermediate pass only) is assembled and compared byte for byte with the program obtained by expanding the constructs by hand at AST level; a program that is rejected while its expansion assembles is a violation.",
+         "Every nest of depth <= 2 (quick) / 3 (thorough, capped as stated in the evidence) over 90 construct variants (.loop, .if/else with 9 conditions - among them a negative value and a value above one, constants defined only at the end of the file - and 5 branch shapes incl. unselected branches that define the names the program uses, macros, a second macro invoked next to the nest whose body defines names called like the outer ones, .const, scopes, 8 import forms incl. names imported through two levels) x 15 leaf bodies (incl. references to the enclosing block's start/end and a body with an error that exists in one intermediate pass only) is assembled and compared byte for byte with the program obtained by expanding the constructs by hand at AST level; a program that is rejected while its expansion assembles is a violation.",
          "The hand expansion implements the documented meaning; pairs whose outputs differ in layout and are both valid fixed points (certificate checker) are counted as ambiguous, not judged; outputs of the same layout that differ in content are always a violation."),
  "C09": ("exploration",
          "bounded-exhaustive configuration enumeration (radius-bounded around base configurations) against a bank layout reference model, on the real executable",
